@@ -1321,7 +1321,7 @@ func runAdmit(o *hx.Out, k int, r *prng.R, inv string) {
 		}
 	}
 	if decoded != nil && verdict == "ok" && w.bc.GetMemPool().ContainsKey(decoded.Hash()) && (inv == "stale" || inv == "noncanon-vm" || r.Chance(1, 4)) {
-		postState(o, k, r, c, decoded, len(raw), rec, onChain, inv, signers)
+		postState(o, k, r, c, decoded, len(raw), rec, onChain, inv, signers, "")
 	}
 	o.Seen(fmt.Sprintf("admit/%s/%s/%d/%d/%d/%s", inv, second, len(tx.Signers), len(tx.Attributes), len(raw), verdict))
 	if k%50 == 0 {
@@ -1384,23 +1384,29 @@ func dropAttr(as []transaction.Attribute, t transaction.AttrType) []transaction.
 // postState: the candidate is pooled; the chain moves (blocks, a Policy change by the committee, an on-chain
 // conflict) and the pool's filter IsTxStillRelevant is compared with the model's, VerifyTx on the new state with
 // the model's admission. The statement's oracle: what the filter keeps must be admissible on the new state.
-func postState(o *hx.Out, k int, r *prng.R, c *cand, decoded *transaction.Transaction, wireSize int, rec recInfo, onChain map[util.Uint256]bool, inv string, signers []*acct) {
+func postState(o *hx.Out, k int, r *prng.R, c *cand, decoded *transaction.Transaction, wireSize int, rec recInfo, onChain map[util.Uint256]bool, inv string, signers []*acct, forceMove string) {
 	s := c.s
 	w := s.w
 	tx := c.tx
 	faun := s.hf != "preFaun"
 	moves := []string{"blocks", "execfee-up", "execfee-up", "execfee-down", "feeperbyte-up", "feeperbyte-down", "vubinc-down", "attrfee-up", "block-signer", "conflict-onchain", "expire"}
 	mv := moves[r.Intn(len(moves))]
+	if forceMove != "" {
+		mv = forceMove
+	} else if inv == "stale" && len(signers) > 1 && r.Chance(1, 3) {
+		mv = "conflict-onchain"
+	}
 	if inv == "noncanon-vm" {
 		mv = []string{"execfee-up", "execfee-up", "blocks", "feeperbyte-up"}[r.Intn(4)]
 	}
+	var lastBlk []*transaction.Transaction // the transactions of the last block added
 	setPol := func(method string, args ...any) {
-		w.addBlock(w.policyTx(method, args...))
+		lastBlk = w.addBlock(w.policyTx(method, args...)).Transactions
 	}
 	switch mv {
 	case "blocks":
 		for i := r.Range(1, 3); i > 0; i-- {
-			w.addBlock()
+			lastBlk = w.addBlock().Transactions
 		}
 	case "execfee-up", "execfee-down":
 		cur := s.pol.base
@@ -1455,27 +1461,59 @@ func postState(o *hx.Out, k int, r *prng.R, c *cand, decoded *transaction.Transa
 		a := signers[r.Intn(len(signers))]
 		if a != s.C || s.blockedC {
 			mv = "blocks"
-			w.addBlock()
+			lastBlk = w.addBlock().Transactions
 			break
 		}
 		s.blockedC = true
 		setPol("blockAccount", s.C.hash)
 	case "conflict-onchain":
-		var ys []*acct
-		for _, a := range signers {
-			if !a.contract && a != s.NC && a != s.committee && !(a == s.C && s.blockedC) && (len(ys) == 0 || r.Bool()) {
-				ys = append(ys, a)
+		// a transaction naming the candidate in a Conflicts attribute arrives in a block made elsewhere (never through
+		// this node's pool), signed by: the candidate's sender, a co-signer only, both, or somebody who does not sign it
+		ok := func(a *acct) bool {
+			return !a.contract && a != s.NC && a != s.committee && !(a == s.C && s.blockedC)
+		}
+		var senderA, coA, strangerA *acct
+		if ok(signers[0]) {
+			senderA = signers[0]
+		}
+		for _, a := range signers[1:] {
+			if ok(a) && (coA == nil || r.Bool()) {
+				coA = a
 			}
+		}
+		for _, a := range []*acct{s.A, s.B, s.C} {
+			if ok(a) && !containsAcct(signers, a) {
+				strangerA = a
+			}
+		}
+		var ys []*acct
+		kinds := []string{"cosigner", "cosigner", "sender", "both", "stranger"}
+		ck := kinds[r.Intn(len(kinds))]
+		switch {
+		case ck == "cosigner" && coA != nil:
+			ys = []*acct{coA}
+		case ck == "both" && coA != nil && senderA != nil:
+			ys = []*acct{coA, senderA}
+		case ck == "stranger" && strangerA != nil:
+			ys = []*acct{strangerA}
+		case senderA != nil:
+			ck = "sender"
+			ys = []*acct{senderA}
+		case coA != nil:
+			ck = "cosigner"
+			ys = []*acct{coA}
 		}
 		if len(ys) == 0 || rec.kind != "N" {
 			mv = "blocks"
-			w.addBlock()
+			lastBlk = w.addBlock().Transactions
 			break
 		}
+		o.Count("stale:conflict-signed-by=" + ck)
 		y := s.newCand(r, ys, 0)
 		y.tx.Attributes = []transaction.Attribute{{Type: transaction.ConflictsT, Value: &transaction.Conflicts{Hash: tx.Hash()}}}
 		y.finish(0)
 		b := w.addBlock(y.tx)
+		lastBlk = b.Transactions
 		rec = recInfo{kind: "S", index: b.Index}
 		for _, a := range ys {
 			rec.signers = append(rec.signers, a.hash)
@@ -1487,13 +1525,41 @@ func postState(o *hx.Out, k int, r *prng.R, c *cand, decoded *transaction.Transa
 			n = 1
 		}
 		for i := 0; i < n+r.Intn(2)-1; i++ {
-			w.addBlock()
+			lastBlk = w.addBlock().Transactions
 		}
 	}
 	o.Count("stale:move=" + mv)
 	rel := w.bc.IsTxStillRelevant(decoded, nil, false)
 	line := c.admitLine(rec, onChain, poolInfo{}, wireSize)
 	o.Line("relevant"+strings.TrimPrefix(line, "admit"), fmt.Sprintf("%d", b2i(rel)))
+	// the same filter the way RemoveStale drives it: with the scratch pool of the last block instead of the ledger lookup
+	{
+		bp := mempool.New(len(lastBlk)+1, false, nil)
+		var sb strings.Builder
+		fmt.Fprintf(&sb, "relevantp %d", len(lastBlk))
+		for i, y := range lastBlk {
+			_ = bp.Add(y, w.bc)
+			fmt.Fprintf(&sb, " %d %d %d %d", 1000+i, y.SystemFee, y.NetworkFee, len(y.Signers))
+			for _, sg := range y.Signers {
+				fmt.Fprintf(&sb, " %d", s.id(sg.Account))
+			}
+			cf := y.GetAttributes(transaction.ConflictsT)
+			fmt.Fprintf(&sb, " %d", len(cf))
+			for j, a := range cf {
+				if a.Value.(*transaction.Conflicts).Hash == tx.Hash() {
+					sb.WriteString(" 0")
+				} else {
+					fmt.Fprintf(&sb, " %d", 2000+10*i+j)
+				}
+			}
+			sb.WriteString(" -")
+		}
+		if bp.Count() == len(lastBlk) {
+			relp := w.bc.IsTxStillRelevant(decoded, bp, false)
+			o.Line(sb.String()+strings.TrimPrefix(line, "admit"), fmt.Sprintf("%d", b2i(relp)))
+			o.Count(fmt.Sprintf("stale:relevantp=%v", relp))
+		}
+	}
 	inPool := w.bc.GetMemPool().ContainsKey(decoded.Hash())
 	v2 := classify(w.bc.VerifyTx(decoded))
 	o.Line(line, v2)
